@@ -1,14 +1,18 @@
 #!/bin/sh
 # usage: tools_eval_mutation.sh <dir with patch.diff> <check ids...>
-# applies the patch to /repo, runs the given checks (quick), undoes the patch
-D="$1"; shift
-cd /repo || exit 2
+# applies the patch to the repository, runs the given checks (quick), undoes the patch.
+# REPO_DIR / VERIF_DIR (default /repo, /verif) allow a scratch copy (a worktree of /repo
+# plus a copy of /verif whose sim/Cargo.toml points at it) to be used for development
+# iterations, so that /repo itself stays free; recorded detections come from /repo.
+D="$(cd "$1" && pwd)"; shift
+R="${REPO_DIR:-/repo}"; V="${VERIF_DIR:-/verif}"
+cd "$R" || exit 2
 git diff --quiet || { echo "repo dirty"; exit 2; }
 git apply "$D/patch.diff" || { echo "patch does not apply"; exit 2; }
 for c in "$@"; do
-  out=$(cd /verif && VERIF_MAX_WALL_S=200 ./check $c quick 2>&1)
+  out=$(cd "$V" && VERIF_MAX_WALL_S=${VERIF_MAX_WALL_S:-200} ./check $c quick 2>&1)
   code=$?
   echo "== $(basename $D) check=$c exit=$code"
   echo "$out" | grep -E "^VIOLATION|^violation|HARNESS|cases in" | cut -c1-400
 done
-git -C /repo checkout -- .
+git -C "$R" checkout -- .
